@@ -235,11 +235,17 @@ func (e *StorageEngine) IsLocked(_ context.Context, addr oid.Address) (bool, err
 }
 
 func (e *StorageEngine) isLocked(addr oid.Address) (bool, error) {
+	var firstErr error
 	for _, sh := range e.unsortedShards() {
 		locked, err := sh.IsLocked(addr)
 		if err != nil {
 			e.reportShardError(sh, "can't check object's lockers", err, zap.Stringer("addr", addr))
-			return false, err
+			// a shard that cannot answer (e.g. a degraded one) must not hide
+			// a lock known to another shard
+			if firstErr == nil {
+				firstErr = err
+			}
+			continue
 		}
 
 		if locked {
@@ -247,7 +253,7 @@ func (e *StorageEngine) isLocked(addr oid.Address) (bool, error) {
 		}
 	}
 
-	return false, nil
+	return false, firstErr
 }
 
 func (e *StorageEngine) processExpiredObjects(addrs []oid.Address) {
